@@ -36,6 +36,7 @@ type World struct {
 	writeSets map[*ssa.Function]map[string]bool
 	implCache map[string][]types.Type
 	srcCache  map[string][]byte
+	determ    map[string]bool
 }
 
 func (w *World) isRepoPkg(p *types.Package) bool {
@@ -130,6 +131,12 @@ func (w *World) addSpec(sf *SpecFile) {
 		w.specTypes[n] = t
 	}
 	w.axioms = append(w.axioms, sf.Axioms...)
+	if w.determ == nil {
+		w.determ = map[string]bool{}
+	}
+	for _, d := range sf.Determ {
+		w.determ[d] = true
+	}
 	for _, fc := range sf.Funcs {
 		w.contracts[fc.Key()] = fc
 	}
@@ -365,4 +372,19 @@ func (w *World) loopStmts(fn *ssa.Function) []loopStmt {
 		return true
 	})
 	return out
+}
+
+// isDeterministic: extern function whose results are modelled as uninterpreted functions of its arguments.
+func (w *World) isDeterministic(fn *ssa.Function) bool {
+	k := fnKey(fn)
+	if w.determ[k] {
+		return true
+	}
+	if i := strings.LastIndex(k, "."); i > 0 && w.determ[k[:i]+".*"] {
+		return true
+	}
+	if fc := w.contracts[k]; fc != nil && fc.Flags["deterministic"] {
+		return true
+	}
+	return false
 }
